@@ -444,7 +444,7 @@ func (cl *cluster) apply(ev string) {
 		}
 		cl.nAdds++
 		cl.task = cl.startTask("rebuild", i, func() error {
-			return jsync.NewTask("http://" + ctlHost + ":9501").AddReplica(addr(i), rn.srv)
+			return jsync.NewTask("http://"+ctlHost+":9501").AddReplica(addr(i), rn.srv)
 		})
 		cl.observe("%s -> %s", ev, cl.taskDesc())
 	case "Step":
@@ -465,6 +465,21 @@ func (cl *cluster) apply(ev string) {
 		cl.failXfer = true
 		cl.nFaults++
 		cl.observe("XferFail armed")
+	case "UnB":
+		// UNMAP of one whole block that holds data, while no replica is rebuilding.  No user snapshot exists in the runs
+		// that have this event, so the range is punched out of every file of the chain: the block reads zeros afterwards.
+		b := atoi(f[1])
+		cl.nUnmaps++
+		var n int
+		err := cl.guard(ev, func() error { var e error; n, e = c.Unmap(int64(b)*Block, Block); return e })
+		cl.observe("%s -> n=%d err=%v", ev, n, err != nil)
+		if err == nil {
+			for id := 1; id <= cl.nWrites; id++ {
+				if blockOf(id) == b {
+					cl.undone[id] = true
+				}
+			}
+		}
 	case "Kill":
 		// the joining replica's process dies at the gate its task is parked at and is started again
 		n := cl.task.node
